@@ -1,7 +1,7 @@
 """Spec recipes (PuanCtor.tla) -> real objects built with the library's own constructors."""
 
 _SUB = {}
-_OCC = [0]
+_OCC = [0, {}]
 def _leaf_subclass():
     import puan
     if "c" not in _SUB:
@@ -21,13 +21,14 @@ def build(r, leaf_str=False, via="ctor", style=0, memo=None, _root=True):
         if key not in memo:
             memo[key] = build(r, leaf_str, via, style, memo, True)
         return memo[key]
-    if _root: _OCC[0] = 0
+    if _root: _OCC[0] = 0; _OCC[1] = {}
     if r["c"] == "leaf":
         if style == 4 and (r["lo"], r["hi"]) == (0, 1):
-            # boolean leaves alternately as a bare id and as a variable object (period 3: two copies of one sub-proposition get
-            # different spellings of the same children)
-            _OCC[0] += 1
-            if _OCC[0] % 3 == 1: return r["id"]
+            # boolean leaves alternately as a bare id and as a variable object: two copies of one sub-proposition get different
+            # spellings of the same children
+            n_ = _OCC[1].get(r["id"], 0) + 1
+            _OCC[1][r["id"]] = n_
+            if (n_ + sum(map(ord, str(r["id"])))) % 2 == 0: return r["id"]          # the occurrences of one leaf alternate, neighbours in opposite phase
         if leaf_str and (r["lo"], r["hi"]) == (0, 1) and style not in (1, 4):
             return r["id"]
         cls = _leaf_subclass() if style == 1 else puan.variable
